@@ -291,10 +291,17 @@ var readFamilies = []family{
 			func(d []byte) error { _, _, e := rjson.ReadStringBytes(d, scratch13[:0]); return e },
 		}, []string{"ReadString", "ReadStringBytes"}},
 	{"object", func(t rjson.TokenType) bool { return t == rjson.ObjectStartType },
-		[]func([]byte) error{func(d []byte) error { _, _, e := rjson.ReadObject(d); return e }}, []string{"ReadObject"}},
+		[]func([]byte) error{func(d []byte) error { _, _, e := rjson.ReadObject(d); return e },
+			func(d []byte) error { _, _, e := vr13.ReadObject(d); return e }}, []string{"ReadObject", "ValueReader(long-lived).ReadObject"}},
 	{"array", func(t rjson.TokenType) bool { return t == rjson.ArrayStartType },
-		[]func([]byte) error{func(d []byte) error { _, _, e := rjson.ReadArray(d); return e }}, []string{"ReadArray"}},
+		[]func([]byte) error{func(d []byte) error { _, _, e := rjson.ReadArray(d); return e },
+			func(d []byte) error { _, _, e := vr13.ReadArray(d); return e }}, []string{"ReadArray", "ValueReader(long-lived).ReadArray"}},
 }
+
+// vr13 is one ValueReader reused for every input of the worker: the typed Read METHODS are Read
+// functions too, and their type exclusivity must not depend on what the reader saw before
+// (seeded change C13r2-m1 let a reused reader's ReadObject accept null).
+var vr13 rjson.ValueReader
 
 func checkExclusive(c *Ctx, cs *h.Case) {
 	d := cs.Input
